@@ -691,13 +691,21 @@ public:
 
 	~CMsgPackReadObjectScope()
 	{
-		ResetKey();
-		// Skip key/values that was not read
-		for (size_t c = mIndex; c < mSize; ++c)
+		try
 		{
-			mMsgPackReader->SkipValue();
-			mMsgPackReader->SkipValue();
-			++mIndex;
+			ResetKey();
+			// Skip key/values that was not read
+			for (size_t c = mIndex; c < mSize; ++c)
+			{
+				mMsgPackReader->SkipValue();
+				mMsgPackReader->SkipValue();
+				++mIndex;
+			}
+		}
+		catch (...)
+		{
+			// A destructor must not throw (e.g. truncated input), the error will be reported by `Finalize()` of the root scope
+			GetContext().DeferError(std::current_exception());
 		}
 	}
 
@@ -941,7 +949,13 @@ public:
 		return std::nullopt;
 	}
 
-	static constexpr void Finalize() noexcept { /* Not required */ }
+	/// <summary>
+	/// Reports the error that occurred when a nested scope was being closed (skipping of values that were not read).
+	/// </summary>
+	void Finalize() const
+	{
+		GetContext().RethrowDeferredError();
+	}
 
 private:
 	IMsgPackReader* mMsgPackReader = nullptr;
